@@ -181,6 +181,32 @@ pub fn run(o: &DetectOpts) -> serde_json::Value {
                     if rng.chance(1, 2) { c.settings.include_encodings.push(bad) } else { c.settings.exclude_encodings.push(bad) }
                 }
             }
+            if (o.focus == "C06" || o.focus == "C07") && rng.chance(1, 3) {
+                // a hint whose own decoding is NOISY: chaos of the hinted encoding lands between 0 and the threshold, on
+                // both sides of the 10% bound of the early exit.  Hint = BOM / signature (2 in 4), declaration (1 in 4), or
+                // none (plain utf-8 / ascii); body = text valid in the hinted encoding with symbols, control characters or
+                // console escapes injected at a random rate; thresholds up to 1.0 so that the noisy candidate is accepted.
+                let ms = marks();
+                let (menc, m): (&str, &[u8]) = match rng.below(4) { 0 | 1 => *rng.pick(&ms), 2 => ("decl", &[]), _ => ("utf-8", &[]) };
+                let denc = *rng.pick(&["windows-1252", "koi8-r", "utf-8", "iso-8859-7", "shift_jis", "windows-1251"]);
+                let enc = if menc == "decl" { denc } else { menc };
+                let base: String = rng.pick(&corpus.texts).chars().skip(rng.below(100)).take(rng.range(20, 700)).collect();
+                let noise: Vec<char> = "\u{1b}[K\u{a4}\u{a7}\u{b6}\u{2020}\u{2021}\u{2030}\u{7}\u{1}|~^`\u{00d7}\u{00f7}".chars().collect();
+                let rate = *rng.pick(&[3usize, 5, 8, 12, 20, 40]);
+                let mut t = String::new();
+                for (i, ch) in base.chars().enumerate() {
+                    t.push(ch);
+                    if i % rate == rate - 1 { t.push(*rng.pick(&noise)); if rng.chance(1, 2) { t.push(*rng.pick(&noise)); } }
+                }
+                let mut b = m.to_vec();
+                if menc == "decl" { b.extend_from_slice(format!("<meta charset=\"{}\"> ", denc).as_bytes()); }
+                b.extend_from_slice(&encode_text(&t, enc).unwrap_or_else(|| t.as_bytes().to_vec()));
+                c.bytes = b;
+                c.kind = format!("noisy-hint-{}", menc);
+                c.settings = default_settings();
+                c.settings.threshold = ordered_float::OrderedFloat(*rng.pick(&[0.2f32, 0.2, 0.3, 0.5, 1.0]));
+                c.settings.preemptive_behaviour = !rng.chance(1, 5);
+            }
             if o.focus == "C07" && rng.chance(1, 2) {
                 // mark-heavy stream
                 let ms = marks();
